@@ -96,6 +96,11 @@ var globalAssumptions = []string{
 	"package-level reflect.Type variables are never reassigned and denote pairwise distinct types",
 	"induction from one-step (loop step / iterator Next) contracts to whole sequences is a meta-argument outside the solver",
 	"genlib2 templates are not verified, only their current output",
+	"a type of a fixed-size basic reflect.Kind has that kind's size on gc/amd64; type sizes are positive",
+	"a typed view ([]T over a storage.Header) aliases the byte store element-wise, and typed views of different element types over one header are kept as separate arrays (byte-level writes are therefore trusted contracts stated over the typed views)",
+	"interface equality and comparison of Dtype structs are identity of dynamic type and payload reference",
+	"contracts marked trusted are assumed, their bodies are not checked (listed per run under coverage.trusted_base)",
+	"iterators: an iterator obtained from a tensor starts at position 0, yields only offsets inside that tensor's storage and reports exhaustion with a NoOpError; a FlatIterator yields exactly the offset sequence of its access pattern (trusted link between the abstract stream and C05's odometer contracts)",
 }
 
 // extraTagSets lists, per property, the additional build configurations under which the functions
@@ -372,6 +377,26 @@ func cmdCheck(args []string) {
 			}
 		}
 	}
+	if len(samples) == 0 {
+		// every query of this run is long: show the shortest discharged one, cut to a readable size
+		var best *Obligation
+		for _, r := range results {
+			for _, o := range r.Obls {
+				if o.Query != "" && !o.Canary && o.Result == "unsat" && (best == nil || len(o.Query) < len(best.Query)) {
+					best = o
+				}
+			}
+		}
+		if best != nil {
+			q := best.Query
+			if len(q) > 12000 {
+				q = q[:12000] + "\n; ... (truncated)"
+			}
+			samples = append(samples, map[string]interface{}{"obligation": best.Name, "rank": best.Rank, "path": best.Path, "verdict": best.Result, "solver": best.Solver, "smtlib": q})
+		} else {
+			samples = append(samples, map[string]interface{}{"note": "no solver query in this run (all obligations discharged syntactically)"})
+		}
+	}
 	schemaCount := map[string]int{}
 	for _, r := range results {
 		if r.Schema != "" {
@@ -391,7 +416,7 @@ func cmdCheck(args []string) {
 		"obligations":              len(claims.Obligations),
 		"discharged":               discharged,
 		"checker_cmd":              fmt.Sprintf("govc check -property %s -tier %s (z3-new 5.1.0, cvc5 1.0.3, z3 4.8.12)", *prop, *tier),
-		"trusted_base":             append(trusted, "go/ssa v0.29.0 naive form", "z3 / cvc5"),
+		"trusted_base":             append(trustedClosure(P, trusted, results), "go/ssa v0.29.0 naive form", "z3 / cvc5"),
 		"functions_under_contract": funcsUnder,
 		"functions_count":          len(funcsUnder),
 		"smt_queries":              totalQueries,
@@ -415,7 +440,7 @@ func cmdCheck(args []string) {
 		cov["generated_file_coverage"] = P.fileCoverage(results, aggByName)
 	}
 	if *level == "other" {
-		cov["explanation"] = "deductive obligations over the real SSA for the functions listed; parts labelled bounded are exhaustive run-time checks to a stated bound and are not counted as proved"
+		cov["explanation"] = "partial claim: deductive obligations over the real SSA, all discharged, for the functions listed under functions_under_contract only; the parts of the property that live in code not under contract (see MANIFEST level text and DESIGN.md 0.4) are not decided by this check. No bounded or run-time checking is involved."
 	}
 	ev := Evidence{PropertyID: *prop, Tier: *tier, Seed: seed, Level: *level, Coverage: cov, Assumptions: globalAssumptions,
 		WallS: time.Since(t0).Seconds(), Violations: violations}
@@ -517,5 +542,39 @@ func (P *Prog) fileCoverage(results []*FuncResult, aggs map[string]*AggObl) map[
 		}
 		out[f] = map[string]interface{}{"functions_total": c.total, "functions_matched": c.matched, "functions_proved": c.proved, "unmatched": u}
 	}
+	return out
+}
+
+// trustedClosure lists every trusted contract this run relied on: the trusted functions named by the
+// property and the trusted callee contracts applied while verifying the others.
+func trustedClosure(P *Prog, direct []string, results []*FuncResult) []string {
+	seen := map[string]bool{}
+	var out []string
+	add := func(k string, why string) {
+		k = shortKey(k)
+		if !seen[k] {
+			seen[k] = true
+			if why != "" {
+				k += " (" + why + ")"
+			}
+			out = append(out, k)
+		}
+	}
+	for _, r := range results {
+		if r.Trusted {
+			add(r.Key, r.TrustedWhy)
+		}
+		for _, u := range r.Used {
+			if c := P.ContractFor(expandKey(u)); c != nil && c.Trusted {
+				add(u, "")
+			} else if c := P.ContractFor(u); c != nil && c.Trusted {
+				add(u, "")
+			}
+		}
+	}
+	for _, d := range direct {
+		add(d, "")
+	}
+	sort.Strings(out)
 	return out
 }
